@@ -50,7 +50,8 @@ def extra_scenarios(tier, seed):
         for s in scripts + [['staleFinal', 'staleFinal', 'ok235'], ['keyedFinal', 'ok235'], ['zeroKeyFinal', 'ok235']]:
             out.append(dict(kind='adv', mech=mech, script=s, prior='authobjok', sent=[], ok=(s == scripts[-1])))
         # hand-written scripts with symbols outside the alphabet of the design model (prior = "hand": no prediction to compare with)
-        for s in (['empty', 'validFirst', 'srvError', 'ok235'], ['empty', 'srvError', 'ok235'], ['srvError', 'ok235'],
+        for s in (['empty', 'zeroIterFirst', 'zeroKeyFinal', 'ok235'], ['empty', 'negIterFirst', 'zeroKeyFinal', 'ok235'], ['empty', 'zeroIterFirst', 'emptyFinal', 'ok235'],
+                  ['empty', 'validFirst', 'srvError', 'ok235'], ['empty', 'srvError', 'ok235'], ['srvError', 'ok235'],
                   ['empty', 'validFirst', 'empty', 'staleFinal', 'ok235'], ['empty', 'validFirst', 'srvError', 'validFinal', 'ok235']):
             out.append(dict(kind='adv', mech=mech, script=s, prior='hand', sent=[], ok=False))
     return out
